@@ -95,6 +95,11 @@ def corpus():
     ch2 = [[k, "a"] for k in SIX] + [["SPEEDS", "0.000=2.000=0.000=0"]]
     out.append({"src": ["lit", [[["VERSION", "0.83"], ["BPMS", "0=1"]], [ch1, ch2]]], "beh": {}, "ts": None, "tc": None})
     out.append({"src": ["lit", [[["VERSION", "0.83"], ["BPMS", "0=1"]], [ch2, ch1]]], "beh": {}, "ts": None, "tc": None})
+    # templates that are not blank-derived: an empty simfile with two keys of its own (and a chart), the default and a lenient policy
+    plain = [[k, "a"] for k in SIX]
+    for beh in ({}, {"1": 2, "2": 2, "3": 2, "4": 2, "5": 2}):
+        out.append({"src": ["lit", [[["VERSION", "0.83"], ["TITLE", "t"], ["BPMS", "0=1"], ["STOPS", ""]], [plain]]], "beh": beh,
+                    "ts": {"props": "empty", "extra": [["CREDIT", "tmpl"], ["X", "y"]], "charts": 1, "extras": True}, "tc": {"radar": "1,2,3", "extras": True}})
     return out
 
 
